@@ -134,6 +134,20 @@ func formatValue(builder *OutputBuilder, value any) error {
 	return nil
 }
 
+// formatIdentifier renders an identifier. Identifiers that originate from Cypher escaped symbolic names
+// (`some name`) are carried through translation in their backticked source form. A backtick is an operator
+// character to PostgreSQL, so the name is decoded and emitted as a double-quoted PostgreSQL identifier.
+func formatIdentifier(identifier pgsql.Identifier) string {
+	raw := identifier.String()
+
+	if len(raw) < 2 || raw[0] != '`' || raw[len(raw)-1] != '`' {
+		return raw
+	}
+
+	name := strings.ReplaceAll(raw[1:len(raw)-1], "``", "`")
+	return "\"" + strings.ReplaceAll(name, "\"", "\"\"") + "\""
+}
+
 func formatLiteral(builder *OutputBuilder, literal pgsql.Literal) error {
 	if literal.Null {
 		builder.Write("null")
@@ -277,7 +291,7 @@ func formatNode(builder *OutputBuilder, rootExpr pgsql.SyntaxNode) error {
 			builder.Write(typedNextExpr.String())
 
 		case pgsql.Identifier:
-			builder.Write(typedNextExpr)
+			builder.Write(formatIdentifier(typedNextExpr))
 
 		case pgsql.CompoundIdentifier:
 			for idx := len(typedNextExpr) - 1; idx >= 0; idx-- {
